@@ -548,4 +548,59 @@ theorem unpack_inverts' (e : Char) (he : e ∈ specEndians) (codes : List Char) 
     simpa [Except.bind] using this
 
 
+
+theorem packTokens_append' (t1 t2 : List (String × Nat)) (v1 v2 : List Val) (h : v1.length = t1.length) :
+    packTokens (t1 ++ t2) (v1 ++ v2) =
+      (match packTokens t1 v1 with
+       | .error e => .error e
+       | .ok b1 =>
+         match packTokens t2 v2 with
+         | .error e => .error e
+         | .ok b2 => .ok (b1 ++ b2)) := by
+  induction t1 generalizing v1 with
+  | nil =>
+    cases v1 with
+    | nil => simp only [List.nil_append, packTokens]; cases packTokens t2 v2 <;> rfl
+    | cons v vs => simp at h
+  | cons t ts ih =>
+    cases v1 with
+    | nil => simp at h
+    | cons v vs =>
+      obtain ⟨name, len⟩ := t
+      simp only [List.cons_append, packTokens]
+      cases mkDtype name len with
+      | error e => rfl
+      | ok d =>
+        simp only []
+        cases build d v with
+        | error e => rfl
+        | ok b =>
+          simp only []
+          rw [ih vs (by simpa using h)]
+          cases packTokens ts vs with
+          | error e => rfl
+          | ok r =>
+            simp only []
+            cases packTokens t2 v2 with
+            | error e => rfl
+            | ok b2 => simp
+
+theorem pack_list_eq_concat' (f : String) (fs : List String) (e : Char) (codes : List Char)
+    (hm : matchStructFmt f = some (e, codes)) (he : e ∈ specEndians) (hc : ∀ c ∈ codes, c ∈ specCodes)
+    (v1 v2 : List Val) (hlen : v1.length = codes.length) :
+    (packList (f :: fs) (v1 ++ v2)).toOption =
+      (match pack f v1, packList fs v2 with
+       | .ok b1, .ok b2 => some (b1 ++ b2)
+       | _, _ => none) := by
+  have hp := structparser_eq e he codes hc
+  simp only [packList, listTokens, hm, hp, pack]
+  cases hl : listTokens fs with
+  | error err => cases packTokens (codes.map (tok e)) v1 <;> simp [Except.toOption]
+  | ok r =>
+    simp only []
+    rw [packTokens_append' _ r v1 v2 (by simp [hlen])]
+    cases packTokens (codes.map (tok e)) v1 with
+    | error err => simp [Except.toOption]
+    | ok b1 => cases packTokens r v2 <;> simp [Except.toOption]
+
 end BM.C18
